@@ -25,7 +25,25 @@ var (
 	vfsLongElem string // that element (an opaque name; natively longer than 255 bytes)
 )
 
+// vfsLinks: entries that are symbolic links to a directory which holds what the model lists beneath them. Everything
+// that follows links (Stat, MkdirAll, Create, a walk that starts at the link) sees a directory; a walk that meets the
+// link below its root, or examines its root with Lstat (filepath.WalkDir), sees a non-directory and does not descend.
+var vfsLinks [][]string
+
+func vfsMakeLink(rel []string) { vfsLinks = append(vfsLinks, append([]string{"T"}, rel...)) }
+
+func vfsIsLink(p string) bool {
+	e := verifPathElems(p)
+	for _, l := range vfsLinks {
+		if sameElems(l, e) {
+			return true
+		}
+	}
+	return false
+}
+
 func vfsReset() {
+	vfsLinks = nil
 	vfs = []vEntry{{elems: []string{"T"}, kind: 1}}
 	vfsMut, vfsOutside, vfsLongName, vfsLongElem = 0, 0, false, ""
 }
